@@ -79,6 +79,9 @@ Blame ==
   @@ "blk.resp"   :> {"C02"}
   @@ "blk.await"  :> {"C04", "C02"}
   @@ "blk.join"   :> {"C17", "C02"}
+  @@ "eff.nested" :> {"C09"} @@ "eff.nested.res" :> {"C09"}
+  @@ "oe.res.publish" :> {"C09"} @@ "oe.res.bpublish" :> {"C09"} @@ "oe.res.bsubscribe" :> {"C09"} @@ "oe.res.bunsubscribe" :> {"C09"}
+  @@ "oe.ready.publish" :> {"C09"} @@ "oe.actor.publish" :> {"C09"}
   @@ "blk.timer"  :> {"C10"}
   @@ "exit.timer" :> {"C10"}
   @@ "tf.state"   :> {"C10", "C07"}
